@@ -10,7 +10,7 @@ prepends the stored envelope (taken from the socket) onto the reply exactly once
 (R07.5) ZmqMessage::prepend keeps frame order (reverse iteration + push_front), split_off delegates to
 VecDeque::split_off. Does NOT decide payload byte equality end to end."""
 from ..sym import show, walk_expr
-from ..common import short, trait_impls, coroutine_of, strip_casts, emptiness, is_empty_bytes, store_hits, names_type
+from ..common import is_field, short, trait_impls, coroutine_of, strip_casts, emptiness, is_empty_bytes, store_hits, names_type
 from .. import pathq
 from ..oblig import implied_ge
 
@@ -292,13 +292,13 @@ def check_rep_send(f, rep):
             pre = [m for _, m in muts if short(m.name) == "prepend"]
             other = [short(m.name) for _, m in muts if short(m.name) != "prepend"]
             env_some = any(e[0] == "discr" and c == ("eq", 1) and pathq.mentions_call(e[1], lambda x: short(x[1]) == "take") is not None and
-                           any(isinstance(y, tuple) and y and y[0] == "field" and y[2] == ENV for y in walk_expr(e[1])) for (e, c, _, _) in p.conds[:ev.ncond])
+                           any(is_field(y, ENV) for y in walk_expr(e[1])) for (e, c, _, _) in p.conds[:ev.ncond])
             if not env_some:
                 rep.check(not pre and not other, "R07.4", "R07.4|no-envelope-no-prepend", "without a stored envelope the reply is written as given", co.loc(ev.bb))
                 continue
             ok = len(pre) == 1 and not other and is_param_msg(pre[0].args[0]) and \
                 pathq.mentions_call(pre[0].args[1], lambda x: short(x[1]) == "take") is not None and \
-                any(isinstance(y, tuple) and y and y[0] == "field" and y[2] == ENV for y in walk_expr(pre[0].args[1])) and \
+                any(is_field(y, ENV) for y in walk_expr(pre[0].args[1])) and \
                 item[0] == "agg" and item[3] == "Message" and is_param_msg(item)
             rep.check(ok, "R07.4", "R07.4|prepend-envelope-once",
                       "REP prepends the taken envelope onto the reply exactly once and writes the reply (prepends=%d, receiver is reply=%s, other mutations=%s)" % (
